@@ -71,6 +71,24 @@ def from_tt(tt):
     return [tt[0], dict(tt[1] or {}), [from_tt(k) for k in tt[2]]]
 
 
+def from_tt_iter(tt):
+    """from_tt without recursion (deep chains)"""
+    if isinstance(tt, str):
+        return tt
+    root = [tt[0], dict(tt[1] or {}), []]
+    stack = [(tt, root)]
+    while stack:
+        src, dst = stack.pop()
+        for k in src[2]:
+            if isinstance(k, str):
+                dst[2].append(k)
+            else:
+                n = [k[0], dict(k[1] or {}), []]
+                dst[2].append(n)
+                stack.append((k, n))
+    return root
+
+
 def to_tt(t):
     if isinstance(t, str):
         return t
@@ -722,3 +740,329 @@ def parse_error_data_ok(e):
     if isinstance(e, pywbem.ParseError) and not isinstance(e, pywbem.HeaderParseError):
         return e.request_data is not None and e.response_data is not None
     return True
+
+
+# ----------------------------------------------------------------------------- mutators
+
+ELEMENT_NAMES = [
+    'CIM', 'DECLARATION', 'DECLGROUP', 'DECLGROUP.WITHNAME', 'DECLGROUP.WITHPATH', 'QUALIFIER.DECLARATION', 'SCOPE',
+    'VALUE', 'VALUE.ARRAY', 'VALUE.REFERENCE', 'VALUE.REFARRAY', 'VALUE.OBJECT', 'VALUE.NAMEDINSTANCE',
+    'VALUE.NAMEDOBJECT', 'VALUE.OBJECTWITHLOCALPATH', 'VALUE.OBJECTWITHPATH', 'VALUE.NULL', 'VALUE.INSTANCEWITHPATH',
+    'NAMESPACEPATH', 'LOCALNAMESPACEPATH', 'HOST', 'NAMESPACE', 'CLASSPATH', 'LOCALCLASSPATH', 'CLASSNAME',
+    'INSTANCEPATH', 'LOCALINSTANCEPATH', 'INSTANCENAME', 'OBJECTPATH', 'KEYBINDING', 'KEYVALUE', 'CLASS', 'INSTANCE',
+    'QUALIFIER', 'PROPERTY', 'PROPERTY.ARRAY', 'PROPERTY.REFERENCE', 'METHOD', 'PARAMETER', 'PARAMETER.REFERENCE',
+    'PARAMETER.ARRAY', 'PARAMETER.REFARRAY', 'MESSAGE', 'MULTIREQ', 'MULTIEXPREQ', 'SIMPLEREQ', 'SIMPLEEXPREQ',
+    'IMETHODCALL', 'METHODCALL', 'EXPMETHODCALL', 'PARAMVALUE', 'IPARAMVALUE', 'EXPPARAMVALUE', 'MULTIRSP',
+    'MULTIEXPRSP', 'SIMPLERSP', 'SIMPLEEXPRSP', 'METHODRESPONSE', 'EXPMETHODRESPONSE', 'IMETHODRESPONSE', 'ERROR',
+    'RETURNVALUE', 'IRETURNVALUE', 'CORRELATOR']
+ODD_NAMES = ['ANY', 'EMBEDDEDOBJECT', 'EmbeddedObject', 'value', 'Instance', 'X', 'CIM.X', 'VALUE_NULL', 'NOTIMPLEMENTED',
+             'INSTANCE.', '__INIT__', 'CHECK.NODE', 'ONE.CHILD', 'UNPACK.VALUE']
+NUMERIC_TEXT = ['INF', '-INF', 'inf', 'NaN', 'nan', '1e400', '-1e400', '1_0', '٣', '0x', '0x1F', '-0x80', '+', '-', '',
+                ' 12 ', '3.7', '1e3', '256', '-129', '65536', '4294967296', '18446744073709551616', '-9223372036854775809',
+                '9' * 400, '1' + '0' * 310, '0b1', '0o7', '1L', '१२', '1,5', '1.', '.5', 'Infinity', '1e', 'abc', '１']
+ATTR_GARBAGE = ['', 'x', ' ', '1x', '-1', '0', '99999999999999999999', 'true ', 'TRUE', 'yes', 'uint8\n', 'Uint8', 'UINT8',
+                'string', 'reference', 'boolean', 'datetime', 'char16', 'real32', 'object', 'instance', 'bogus', '٣', '1_0',
+                'uint8', 'sint64', '3.0', '2.x', '1.', 'é', '\n', '0x10', '+5', ' 7 ', 'numeric', 'IRETURNVALUE', 'ERROR',
+                'EndOfSequence', 'EnumerationContext', 'QueryResultClass']
+SPECIAL_ATTRS = ['CODE', 'ARRAYSIZE', 'TYPE', 'PARAMTYPE', 'VALUETYPE', 'NAME', 'CLASSNAME', 'PROPAGATED', 'ISARRAY',
+                 'EmbeddedObject', 'EMBEDDEDOBJECT', 'CIMVERSION', 'DTDVERSION', 'PROTOCOLVERSION', 'REFERENCECLASS',
+                 'OVERRIDABLE', 'TOSUBCLASS', 'SUPERCLASS', 'CLASSORIGIN', 'ID', 'DESCRIPTION', 'xml:lang']
+
+
+def pool_elements(g):
+    """well-formed elements of every kind (used as replacement / insertion material)"""
+    import pywbem
+    from pywbem import _cim_xml
+    r = g.r
+    k = r.randint(0, 21)
+    if k == 0:
+        return obj_tree(_inst(g))
+    if k == 1:
+        return obj_tree(_instname(g))
+    if k == 2:
+        return obj_tree(_instpath(g))
+    if k == 3:
+        return obj_tree(g.klass())
+    if k == 4:
+        return obj_tree(pywbem.CIMClassName(g.name('C')))
+    if k == 5:
+        return obj_tree(_classpath(g))
+    if k == 6:
+        return obj_tree(g.qualdecl())
+    if k == 7:
+        return value(r.choice(NUMERIC_TEXT + ['ab', 'abc', 'TRUE', 'false']))
+    if k == 8:
+        return E('VALUE.ARRAY', {}, [value(r.choice(['a', '1', 'TRUE'])), E('VALUE.NULL')])
+    if k == 9:
+        return E('VALUE.REFERENCE', {}, [obj_tree(_instpath(g))])
+    if k == 10:
+        return obj_tree(_cim_xml.VALUE_OBJECT(_inst(g).tocimxml()))
+    if k == 11:
+        return obj_tree(_cim_xml.VALUE_OBJECT(g.klass().tocimxml()))
+    if k == 12:
+        return obj_tree(_cim_xml.VALUE_NAMEDINSTANCE(_instname(g).tocimxml(), _inst(g).tocimxml()))
+    if k == 13:
+        return obj_tree(_cim_xml.VALUE_INSTANCEWITHPATH(_instpath(g).tocimxml(), _inst(g).tocimxml()))
+    if k == 14:
+        return obj_tree(_cim_xml.VALUE_OBJECTWITHPATH(_classpath(g).tocimxml(), g.klass().tocimxml()))
+    if k == 15:
+        p = _classpath(g)
+        p.host = None
+        return obj_tree(_cim_xml.VALUE_OBJECTWITHLOCALPATH(p.tocimxml(), g.klass().tocimxml()))
+    if k == 16:
+        return obj_tree(_cim_xml.OBJECTPATH(_classpath(g).tocimxml()))
+    if k == 17:
+        return error_elem(r.choice(['1', '6', '0', '17', '28', '99', 'x', '', ' 5 ', '1_0', '-3', '5.0', '٥']),
+                          r.choice([None, 'd', '']), [obj_tree(_inst(g))] if r.random() < 0.3 else [])
+    if k == 18:
+        return paramvalue(r.choice(['EndOfSequence', 'EnumerationContext', 'QueryResultClass', 'P0', 'IRETURNVALUE', 'ERROR']),
+                          r.choice([None, 'string', 'boolean', 'uint8', 'reference', 'bogus']),
+                          r.choice([None, value('TRUE'), value('x'), obj_tree(g.klass())]))
+    if k == 19:
+        return E('RETURNVALUE', r.choice([{}, {'PARAMTYPE': 'uint8'}, {'PARAMTYPE': 'bogus'}]),
+                 [value(r.choice(['1', 'x', 'INF']))])
+    if k == 20:
+        return iret([obj_tree(_inst(g))])
+    return E(r.choice(ELEMENT_NAMES + ODD_NAMES), {}, [])
+
+
+def _elems(t):
+    return [(p, n) for p, n in walk(t)]
+
+
+def mutate(g, t):
+    """apply one random mutation in place; returns a label naming the mutation class"""
+    r = g.r
+    nodes = _elems(t)
+    kind = r.choice(['drop', 'dup', 'swap', 'rename', 'rename_odd', 'drop_attr', 'garble_attr', 'add_attr', 'special_attr',
+                     'numeric_text', 'value_null', 'replace', 'insert', 'text_in', 'wrong_iret', 'error_pos', 'case_attr',
+                     'garble_text', 'special_attr', 'numeric_text', 'replace', 'insert', 'garble_attr'])
+    nonroot = [(p, n) for p, n in nodes if p]
+    if kind == 'drop' and nonroot:
+        p, n = r.choice(nonroot)
+        par = node_at(t, p[:-1])
+        del par[2][p[-1]]
+        return 'drop:' + n[0]
+    if kind == 'dup' and nonroot:
+        p, n = r.choice(nonroot)
+        par = node_at(t, p[:-1])
+        par[2].insert(p[-1], copy.deepcopy(n))
+        return 'dup:' + n[0]
+    if kind == 'swap':
+        cands = [n for _, n in nodes if len([k for k in n[2] if not isinstance(k, str)]) >= 2]
+        if cands:
+            n = r.choice(cands)
+            idx = [i for i, k in enumerate(n[2]) if not isinstance(k, str)]
+            a, b = r.sample(idx, 2)
+            n[2][a], n[2][b] = n[2][b], n[2][a]
+            return 'swap:' + n[0]
+    if kind == 'rename':
+        p, n = r.choice(nodes)
+        old = n[0]
+        n[0] = r.choice(ELEMENT_NAMES)
+        return 'rename:%s' % old
+    if kind == 'rename_odd':
+        p, n = r.choice(nodes)
+        old = n[0]
+        n[0] = r.choice(ODD_NAMES + [old.lower(), old.title(), old + 'X'])
+        return 'rename_odd:%s' % old
+    withattr = [n for _, n in nodes if n[1]]
+    if kind == 'drop_attr' and withattr:
+        n = r.choice(withattr)
+        a = r.choice(sorted(n[1]))
+        del n[1][a]
+        return 'drop_attr:%s@%s' % (n[0], a)
+    if kind == 'garble_attr' and withattr:
+        n = r.choice(withattr)
+        a = r.choice(sorted(n[1]))
+        n[1][a] = r.choice(ATTR_GARBAGE)
+        return 'garble_attr:%s@%s' % (n[0], a)
+    if kind == 'case_attr' and withattr:
+        n = r.choice(withattr)
+        a = r.choice(sorted(n[1]))
+        v = n[1].pop(a)
+        n[1][r.choice([a.lower(), a.title(), a + 'X'])] = v
+        return 'case_attr:%s@%s' % (n[0], a)
+    if kind == 'add_attr':
+        p, n = r.choice(nodes)
+        a = r.choice(SPECIAL_ATTRS + ['FOO', 'xmlns', 'xmlns:x'])
+        n[1][a] = r.choice(ATTR_GARBAGE)
+        return 'add_attr:%s@%s' % (n[0], a)
+    if kind == 'special_attr':
+        cands = [(n, a) for _, n in nodes for a in n[1] if a in SPECIAL_ATTRS]
+        if cands:
+            n, a = r.choice(cands)
+            n[1][a] = r.choice(ATTR_GARBAGE)
+            return 'special_attr:%s@%s' % (n[0], a)
+    if kind == 'numeric_text':
+        cands = [n for _, n in nodes if n[0] in ('VALUE', 'KEYVALUE')]
+        if cands:
+            n = r.choice(cands)
+            n[2] = [r.choice(NUMERIC_TEXT)]
+            return 'numeric_text:' + n[0]
+    if kind == 'garble_text':
+        cands = [n for _, n in nodes if n[0] in ('VALUE', 'KEYVALUE', 'HOST')]
+        if cands:
+            n = r.choice(cands)
+            n[2] = [r.choice(['', ' ', 'x', 'TRUE', 'maybe', '<INSTANCE CLASSNAME="C"/>', '<CLASS NAME="C"/>', '<X/>', '<',
+                              '20240101000000.000000+000', '20241301000000.000000+000', '00000001000000.000000:000',
+                              '\U0001F600', 'ab', 'abc', g.string()])]
+            return 'garble_text:' + n[0]
+    if kind == 'value_null':
+        cands = [n for _, n in nodes if n[0] in ('VALUE.ARRAY', 'VALUE.REFARRAY', 'IRETURNVALUE', 'PROPERTY', 'PARAMVALUE')]
+        if cands:
+            n = r.choice(cands)
+            n[2].insert(r.randint(0, len(n[2])), E('VALUE.NULL'))
+            return 'value_null:' + n[0]
+    if kind == 'replace' and nonroot:
+        p, n = r.choice(nonroot)
+        par = node_at(t, p[:-1])
+        new = pool_elements(g)
+        par[2][p[-1]] = new
+        return 'replace:%s>%s' % (n[0], new[0])
+    if kind == 'insert':
+        p, n = r.choice(nodes)
+        new = pool_elements(g)
+        n[2].insert(r.randint(0, len(n[2])), new)
+        return 'insert:%s<%s' % (n[0], new[0])
+    if kind == 'text_in':
+        p, n = r.choice(nodes)
+        n[2].insert(r.randint(0, len(n[2])), r.choice(['x', ' ', '\n  ', ' ', '\r', '\x0b', 'text']))
+        return 'text_in:' + n[0]
+    if kind == 'wrong_iret':
+        cands = [n for _, n in nodes if n[0] == 'IRETURNVALUE']
+        if cands:
+            n = r.choice(cands)
+            new = [pool_elements(g)]
+            if r.random() < 0.5:
+                new = [copy.deepcopy(new[0]) for _ in range(r.randint(1, 3))]
+            n[2] = new
+            return 'wrong_iret:' + new[0][0]
+    if kind == 'error_pos':
+        cands = [n for _, n in nodes if n[0] in ('IMETHODRESPONSE', 'METHODRESPONSE', 'EXPMETHODRESPONSE')]
+        if cands:
+            n = r.choice(cands)
+            err = error_elem(r.choice(['1', '6', '5', '0', '17', '28', '99', 'x', '', ' 5 ', '1_0', '-3', '5.0', '٥',
+                                       '4294967296']),
+                             r.choice([None, 'd', '']), [obj_tree(_inst(g))] if r.random() < 0.3 else [])
+            if r.random() < 0.5:
+                n[2] = [err]
+            else:
+                n[2].insert(r.randint(0, len(n[2])), err)
+            return 'error_pos'
+    # fallback
+    p, n = r.choice(nodes)
+    n[1]['FOO'] = 'bar'
+    return 'add_attr:%s@FOO' % n[0]
+
+
+def deep_chain(kind, n):
+    """n-deep nesting inside a GetInstance-style INSTANCE / INSTANCENAME"""
+    if kind == 'reference':
+        inner = E('INSTANCENAME', {'CLASSNAME': 'C'}, [E('KEYBINDING', {'NAME': 'k'}, [E('KEYVALUE', {}, ['v'])])])
+        for _ in range(n):
+            inner = E('INSTANCENAME', {'CLASSNAME': 'C'},
+                      [E('KEYBINDING', {'NAME': 'k'}, [E('VALUE.REFERENCE', {}, [inner])])])
+        return inner
+    inner = E('X', {}, [])
+    for _ in range(n):
+        inner = E(kind, {}, [inner])
+    return inner
+
+
+def embedded_chain(n):
+    """INSTANCE with n levels of embedded instances (each level escapes the next)"""
+    s = '<INSTANCE CLASSNAME="C"/>'
+    for _ in range(n):
+        s = ser(E('INSTANCE', {'CLASSNAME': 'C'},
+                  [E('PROPERTY', {'NAME': 'p', 'TYPE': 'string', 'EmbeddedObject': 'instance'}, [E('VALUE', {}, [s])])]))
+    from pywbem._tupletree import xml_to_tupletree_sax
+    return from_tt(xml_to_tupletree_sax(s, 'c02'))
+
+
+BAD_UTF8 = [b'\xff', b'\xc0\xaf', b'\xed\xa0\x80', b'\xf8\x88\x80\x80\x80', b'\xe2\x82', b'\x80', b'\xc3']
+BAD_XMLCHARS = [b'\x00', b'\x01', b'\x0b', b'\x1f', b'\xef\xbf\xbe', b'\xef\xbf\xbf', b'&#0;', b'&#x1;', b'&#xD800;', b'&bogus;',
+                b'<!--', b'<![CDATA[', b']]>', b'<?pi', b'<!DOCTYPE x [<!ENTITY a "aaaa">]>', b'&', b'<', b'"']
+XML_DECLS = [b'<?xml version="1.0" encoding="utf-8" ?>\n', b'<?xml version="1.0" encoding="utf-16"?>',
+             b'<?xml version="1.0" encoding="latin-1"?>', b'<?xml version="1.0" encoding="bogus"?>',
+             b'<?xml version="2.0"?>', b'\xef\xbb\xbf', b'\xff\xfe', b'\n<?xml version="1.0"?>', b'<?xml version="1.0" standalone="yes"?>',
+             b'<!DOCTYPE CIM SYSTEM "http://x.invalid/cim.dtd">', b'<!DOCTYPE CIM [<!ENTITY e SYSTEM "file:///etc/passwd">]>']
+
+
+def mutate_bytes(g, body):
+    r = g.r
+    k = r.choice(['trunc', 'utf8', 'xmlchar', 'decl', 'utf16', 'latin1', 'empty', 'junk_after', 'junk_before', 'flip'])
+    if k == 'trunc':
+        return 'trunc', body[:r.randint(0, max(0, len(body) - 1))]
+    if k == 'utf8':
+        i = r.randint(0, len(body))
+        return 'utf8', body[:i] + r.choice(BAD_UTF8) + body[i:]
+    if k == 'xmlchar':
+        i = r.randint(0, len(body))
+        return 'xmlchar', body[:i] + r.choice(BAD_XMLCHARS) + body[i:]
+    if k == 'decl':
+        return 'decl', r.choice(XML_DECLS) + body
+    if k == 'utf16':
+        return 'utf16', body.decode('utf-8').encode('utf-16')
+    if k == 'latin1':
+        return 'latin1', body.decode('utf-8').encode('latin-1', 'replace')
+    if k == 'empty':
+        return 'empty', r.choice([b'', b' ', b'\n', b'x', b'<', b'<CIM', b'<CIM/>', b'<a><b></a></b>'])
+    if k == 'junk_after':
+        return 'junk_after', body + r.choice([b'x', b'<CIM/>', b'\x00', b' \n', b'<!-- c -->'])
+    if k == 'junk_before':
+        return 'junk_before', r.choice([b'x', b' ', b'\n', b'\x00', b'<!-- c -->']) + body
+    i = r.randint(0, max(0, len(body) - 1))
+    return 'flip', body[:i] + bytes([body[i] ^ (1 << r.randint(0, 7))]) + body[i + 1:] if body else b''
+
+
+def http_variants(g, body):
+    """(label, status, reason, headers, body) variations of the HTTP envelope"""
+    r = g.r
+    k = r.choice(['status', 'status401', 'ctype', 'noctype', 'srt', 'cimerror', 'status', 'ctype'])
+    h = dict(XML_HDR)
+    if k == 'status':
+        st = r.choice([100, 199, 201, 204, 301, 302, 400, 403, 404, 405, 407, 408, 500, 501, 503, 999, 0])
+        if r.random() < 0.5:
+            h['CIMError'] = r.choice(['request-not-valid', '', 'é'])
+            if r.random() < 0.5:
+                h['PGErrorDetail'] = r.choice(['a%20b', '%', '%zz', '%ff%fe', ''])
+        return 'status', st, r.choice(['x', '', 'Not Found']), h, body
+    if k == 'status401':
+        wa = r.choice([None, '', 'Basic realm="x"', 'Digest x, Basic y', 'Negotiate', ',', ' ', 'Basic', 'basic'])
+        if wa is not None:
+            h['WWW-Authenticate'] = wa
+        return 'status401', 401, 'Unauthorized', h, body
+    if k == 'ctype':
+        h['Content-type'] = r.choice(['text/xml', 'text/xml; charset=utf-8', 'application/xml', 'text/html', '', 'application/json',
+                                      'APPLICATION/XML', 'application/xmlx', 'text/xml; charset=bogus', ' application/xml',
+                                      'application/soap+xml', 'text/xml; charset=utf-16'])
+        return 'ctype', 200, 'OK', h, body
+    if k == 'noctype':
+        return 'noctype', 200, 'OK', {}, body
+    if k == 'srt':
+        h['WBEMServerResponseTime'] = r.choice(['1234', 'x', '', 'inf', 'nan', '1e999', '-5', '1_0', ' 7 ', '٣'])
+        return 'srt', 200, 'OK', h, body
+    h['CIMError'] = 'x'
+    return 'cimerror', 200, 'OK', h, body
+
+
+def transport_exceptions():
+    import requests.exceptions as rx
+    from requests.packages import urllib3
+    ux = urllib3.exceptions
+    out = [rx.ConnectionError('x'), rx.ConnectTimeout('x'), rx.ReadTimeout('x'), rx.SSLError('x'), rx.ProxyError('x'),
+           rx.TooManyRedirects('x'), rx.ChunkedEncodingError('x'), rx.ContentDecodingError('x'), rx.InvalidURL('x'),
+           rx.InvalidSchema('x'), rx.MissingSchema('x'), rx.RetryError('x'), rx.HTTPError('x'), rx.RequestException('x'),
+           rx.StreamConsumedError('x'), rx.InvalidHeader('x'), rx.InvalidProxyURL('x'), rx.UnrewindableBodyError('x'),
+           rx.Timeout('x'), rx.URLRequired('x'),
+           rx.ConnectionError(ux.MaxRetryError(None, 'u', ux.NewConnectionError(None, 'm'))),
+           rx.ConnectionError(ux.ProtocolError('Connection aborted.', ConnectionResetError(104, 'reset'))),
+           rx.ConnectionError(ux.MaxRetryError(None, 'u', ux.SSLError('s'))),
+           rx.ConnectionError(ux.ReadTimeoutError(None, 'u', 'm')),
+           rx.SSLError(ux.MaxRetryError(None, 'u', ux.SSLError('s'))),
+           ux.ProtocolError('x'), ux.DecodeError('x'), ux.ReadTimeoutError(None, 'u', 'm'), ux.HTTPError('x'),
+           ux.LocationParseError('x'), ux.SSLError('x'), ux.MaxRetryError(None, 'u', None), ux.ProxyError('p', Exception('e')),
+           ux.IncompleteRead(1, 2), ux.InvalidHeader('x'), ux.ResponseError('x'), ux.NewConnectionError(None, 'x'),
+           ux.ConnectTimeoutError('x'), ux.TimeoutError('x'), ux.ClosedPoolError(None, 'x'), ux.EmptyPoolError(None, 'x')]
+    return out
